@@ -220,3 +220,21 @@ func (c *PipeConn) RemoteAddr() net.Addr               { return pipeAddr(c.name 
 func (c *PipeConn) SetDeadline(t time.Time) error      { return nil }
 func (c *PipeConn) SetReadDeadline(t time.Time) error  { return nil }
 func (c *PipeConn) SetWriteDeadline(t time.Time) error { return nil }
+
+// TakeAvailable removes and returns the bytes written by the other end that
+// have not been read yet, without blocking.
+func (c *PipeConn) TakeAvailable() []byte {
+	c.in.mu.Lock()
+	b := append([]byte(nil), c.in.buf...)
+	c.in.buf = c.in.buf[:0]
+	c.in.mu.Unlock()
+	wake(c.in.wwake)
+	return b
+}
+
+// PeerClosed reports whether the other end closed its side (EOF for us).
+func (c *PipeConn) PeerClosed() bool {
+	c.in.mu.Lock()
+	defer c.in.mu.Unlock()
+	return c.in.wclosed
+}
